@@ -246,8 +246,9 @@ impl<T: CircuitField + Ord> Circuit<T> for OpCircuit<T> {
                 ng.assert_lower_than_fixed(&mut l, &ns[0], &BigUint::from(self.params[1]))?;
             }
             "lower_than" | "geq" => {
+                // params: [bound] or [bound of x, bound of y]
                 let x = ng.bounded_of_element(&mut l, pu(0), &ns[0])?;
-                let y = ng.bounded_of_element(&mut l, pu(0), &ns[1])?;
+                let y = ng.bounded_of_element(&mut l, if self.params.len() > 1 { pu(1) } else { pu(0) }, &ns[1])?;
                 let b = if self.op == "lower_than" { ng.lower_than(&mut l, &x, &y)? } else { ng.geq(&mut l, &x, &y)? };
                 outs.push(Out::B(b));
             }
